@@ -17,7 +17,12 @@ import common
 import gen
 import harness
 
-THEOREMS = ["Grc.Cm.alloc_pseudo_range", "Grc.Cm.alloc_above_real", "Grc.Cm.alloc_pseudo_ids_distinct", "Grc.Fsm.checkCert_correct"]
+THEOREMS = ["Grc.Cm.alloc_pseudo_range", "Grc.Cm.alloc_above_real", "Grc.Cm.alloc_pseudo_ids_distinct", "Grc.Fsm.checkCert_correct",
+            # the compiler's own cmap searches, transcribed, equal the format's definition (all code points, all sizes)
+            "Grc.Cm.bsearch_spec", "Grc.Cm.lookup31_eq_lookup", "Grc.Cm.lookup310_eq_lookup",
+            # T1: the transcribed functions still have the text the transcription was made from
+            "Grc.CmapGen.cmap31_text_as_modelled", "Grc.CmapGen.cmap310_text_as_modelled",
+            "Grc.CmapGen.glyph_from_cmap_text_as_modelled"]
 
 
 def drive17(cases):
@@ -42,7 +47,7 @@ def drive17(cases):
 
 def run(tier, seed, replay=None):
     rep = common.Report("C17", tier, seed)
-    common.lean_gate(rep, THEOREMS)
+    common.lean_gate(rep, THEOREMS, uses_cmap=True)
     build = common.build_repo("rel")
     work = common.new_workdir("c17")
     n = 120 if tier == "quick" else 1200
@@ -60,6 +65,7 @@ def run(tier, seed, replay=None):
                 distinct.add(l)
                 f = dict(x.split("=") for x in l.split(" ")[1:])
                 stats["pseudos"] += int(f["pseudos"])
+                stats["fonts_meeting_cmap_search_hypothesis" if f.get("cmapEndCodesAscending") == "true" else "fonts_with_unsorted_end_codes"] += 1
         if fl:
             d = harness.save_case(rep, r, r["name"])
             rep.violation(r["name"], {"case": r["name"], "checker_lines": fl[:10], "gdl": r["prog"].gdl(),
@@ -99,6 +105,8 @@ def run(tier, seed, replay=None):
     rep.coverage.update({
         "programs": len(results) + 2 * len(mcases), "programs_accepted": len(acc), "programs_rejected": len(rej),
         "rejected_error_ids": harness.error_ids(rej), "pseudo_glyphs_checked": stats["pseudos"],
+        "fonts_meeting_cmap_search_hypothesis": stats["fonts_meeting_cmap_search_hypothesis"],
+        "fonts_with_unsorted_end_codes": stats["fonts_with_unsorted_end_codes"],
         "traces_validated_against_impl": stats["fonts"], "disagreements_checked": len(rep.violations),
         "evaluations": stats["fonts"], "distinct_nontrivial": len(distinct),
         "rule": "fonts with cmap 4 / 4+12 (supplementary plane) / symbol (3,0), 1-4 code points sharing a glyph, post format 2 names; classes written with unicode(), U+, ranges, glyphid(), postscript(); AutoPseudo on/off; plus an unmapped code point with and without -g; distinct = distinct (realGlyphs, pseudos, lb, phantom, classes) summaries",
